@@ -332,64 +332,153 @@ def rule_index_normalisation(ctx, cfg='prod-all'):
                  fact={'sort_blocks': sorts, 'dedup_blocks': dedups, 'use_blocks': uses}, expected='sort and dedup dominate every use')
 
 
+def _linear(zf, t, depth=0):
+    """a term as a linear form ({symbol: coefficient}, constant), expanding sums of two symbolic values the zone keeps as opaque symbols"""
+    if t is None or depth > 8:
+        return None
+    sy, c = t
+    if sy is None:
+        return ({}, c)
+    if sy.startswith('v') and sy[1:].isdigit() and (zf.body.path, int(sy[1:])) in zf.za.sums:
+        a, b = zf.za.sums[(zf.body.path, int(sy[1:]))]
+        la, lb = _linear(zf, a, depth + 1), _linear(zf, b, depth + 1)
+        if la is None or lb is None:
+            return None
+        out = dict(la[0])
+        for k, v in lb[0].items():
+            out[k] = out.get(k, 0) + v
+        return (out, la[1] + lb[1] + c)
+    return ({sy: 1}, c)
+
+
+def closure_addend(pzf, czf):
+    """for a closure `|j| j + X` / `|j| j.checked_add(X)`: X as a linear form in the terms of the creating body (None if the closure is not
+    of that shape)"""
+    body = czf.body
+    ctx = czf.closure_ctx()
+    if ctx is None:
+        return None
+    caps = ctx[2]
+    d = czf.single_def(0)
+    lin = None
+    for _ in range(4):
+        if d is None:
+            return None
+        if d[0] == 'call' and (d[2].get('callee') or '').endswith(('::checked_add', '::wrapping_add', '::saturating_add')) and len(d[2]['args']) == 2:
+            la, lb = _linear(czf, czf.term_op(d[2]['args'][0])), _linear(czf, czf.term_op(d[2]['args'][1]))
+            if la is None or lb is None:
+                return None
+            lin = (dict(la[0]), la[1] + lb[1])
+            for k, v in lb[0].items():
+                lin[0][k] = lin[0].get(k, 0) + v
+            break
+        if d[0] == 'assign' and d[2]['rv']['k'] == 'use' and d[2]['rv']['op']['k'] in ('copy', 'move'):
+            t = czf.term_op(d[2]['rv']['op'])
+            if t is not None:
+                lin = _linear(czf, t)
+                break
+            d = czf.single_def(d[2]['rv']['op']['pl']['l']) if not d[2]['rv']['op']['pl'].get('p') else None
+            continue
+        if d[0] == 'assign' and d[2]['rv']['k'] == 'binop':
+            lin = _linear(czf, czf._binop_term(0, d[2]['rv'], d[1]))
+            break
+        return None
+    if lin is None:
+        return None
+    syms, const = lin
+    if syms.get('p2') != 1:
+        return None
+    out, oc = {}, const
+    for sy, k in syms.items():
+        if sy == 'p2':
+            continue
+        if sy.startswith('cap') and sy[3:].isdigit() and int(sy[3:]) < len(caps):
+            lp = _linear(pzf, pzf.term_op(caps[int(sy[3:])]))
+            if lp is None:
+                return None
+            for s2, k2 in lp[0].items():
+                out[s2] = out.get(s2, 0) + k * k2
+            oc += k * lp[1]
+        else:
+            return None
+    return (out, oc)
+
+
 def rule_index_translation(ctx, cfg='prod-all'):
-    """prover and verifier place committed-message index j at j + L + 1 (after the L signer messages and the blind factor)."""
+    """prover and verifier place committed-message index j at j + L + 1 (after the L signer messages and the blind factor), and L + 1 is also
+    the signer generator count handed to prepare_parameters.  Decided on terms: the closure mapped over the commitment index list computes
+    `element + X`; X and the generator count are the same linear form `L + 1`, where L is the length of the signer message list (prover) or
+    the caller-supplied count (verifier)."""
+    from rf_consts import _trace_identity
     prog, eng, za = ctx.prog(cfg), ctx.eng(cfg), ctx.zone(cfg)
-    # verifier: shift = L + 1 and the closure adds `shift` (checked)
-    v = resolve_fn(prog, T.POK + 'blind_proof_verify')
-    za.summary(v.path)
-    zv = za.zf(v.path)
-    shift = [l for l, loc in enumerate(v.locals) if loc.get('name') == 'shift']
-    ok_v = False
-    fact_v = None
-    if shift:
-        t = zv.term_local(shift[0])
-        lsym = None
-        for l, loc in enumerate(v.locals):
-            if loc.get('name') == 'L' and loc['ty'] == 'usize':
-                lsym = zv.term_local(l)
-        fact_v = {'shift': tfmt(t), 'L': tfmt(lsym)}
-        ok_v = t is not None and lsym is not None and t == tadd(lsym, 1)
-    else:
-        # unshifted form: closure computes j + L + 1 directly
-        for cb in prog.closures_of(v.path):
-            cz = za.zf(cb.path)
-            za.summary(cb.path)
-            for (fnp, l), (a, c) in za.sums.items():
-                if fnp == cb.path:
-                    fact_v = {'closure_sum': (tfmt(a), tfmt(c))}
-    yield Ob('RF-B', '%s#index-shift' % v.path, ok_v, 'verifier shifts committed indexes by L + 1', v.span, fact=fact_v, expected='shift == L + 1')
-    # the generator count passed for the signer part is the same L + 1
-    for bi, t in v.calls():
-        if (local_target(eng, t) or '').endswith('prepare_parameters'):
-            gt = zv.term_op(t['args'][2])
-            yield Ob('RF-B', '%s#generator-count' % v.path, shift and gt == zv.term_local(shift[0]), 'signer generator count is L + 1, the same offset as the index shift', v.span,
-                     fact=tfmt(gt), expected='L + 1')
-    # prover: closure |&j| j + L + 1
-    p = resolve_fn(prog, T.POK + 'blind_proof_gen')
-    found = None
-    for cb in prog.closures_of(p.path):
-        cz = za.zf(cb.path)
-        za.summary(cb.path)
-        adds = [s for s in cz.sites if s.kind == 'overflow' and '+' in s.desc]
-        consts = []
-        for bi, blk in enumerate(cb.blocks):
-            for s in blk['stmts']:
-                if s['k'] == 'assign' and s['rv']['k'] == 'binop' and s['rv']['op'].startswith('Add'):
-                    for o in (s['rv']['a'], s['rv']['b']):
-                        if o['k'] == 'const' and 'int' in o:
-                            consts.append(int(o['int']))
-        if len(adds) == 2:
-            found = {'closure': cb.path.split('::')[-1], 'additions': len(adds), 'constants': consts}
-    ok_p = found is not None and found['constants'] == [1]
-    yield Ob('RF-B', '%s#index-shift' % p.path, ok_p, 'prover shifts committed indexes by L + 1 (two additions, constant 1)', p.span, fact=found, expected='j + L + 1')
-    for bi, t in p.calls():
-        if (local_target(eng, t) or '').endswith('prepare_parameters'):
-            za.summary(p.path)
-            zp = za.zf(p.path)
-            gt = zp.term_op(t['args'][2])
-            yield Ob('RF-B', '%s#generator-count' % p.path, gt == ('len:_%s' % '', 0) or (gt is not None and gt[1] == 1 and (gt[0] or '').startswith('len:')),
-                     'signer generator count is len(messages) + 1', p.span, fact=tfmt(gt), expected='len(messages) + 1')
+    for suffix, lparam, is_len in ((T.POK + 'blind_proof_gen', 'messages', True), (T.POK + 'blind_proof_verify', 'L', False)):
+        b = resolve_fn(prog, suffix)
+        za.summary(b.path)
+        zf = za.zf(b.path)
+        fd = zf.fd
+        kl = b.param_index(lparam)
+        kc = b.param_index('disclosed_commitment_indexes')
+        if kl is None or kc is None:
+            raise AnchorMissing('%s: parameters %s / disclosed_commitment_indexes' % (b.path, lparam))
+        # the generator count
+        gcount = None
+        for bi, t in b.calls():
+            if (local_target(eng, t) or '').endswith('prepare_parameters') and len(t['args']) >= 3:
+                gcount = _linear(zf, zf.term_op(t['args'][2]))
+        # the shift closure: mapped over an iterator of the commitment index list
+        addend = None
+        which = None
+        for cb in prog.closures_of(b.path):
+            czf = za.zf(cb.path)
+            cctx = czf.closure_ctx()
+            if cctx is None or cctx[0] is not zf or cctx[3] is None:
+                continue
+            bi, t = cctx[3]
+            if (t.get('callee') or '') not in ('std::iter::Iterator::map', 'std::iter::Iterator::filter_map') or not t['args']:
+                continue
+            cont = zf.iter_container(t['args'][0])
+            root = None
+            for _ in range(6):
+                if cont is None:
+                    break
+                if cont[0] in ('cont', 'call', 'callfield'):
+                    root = cont[1]
+                    break
+                if cont[0] == 'same':
+                    root = cont[2]
+                    break
+                if cont[0] == 'sub':
+                    cont = cont[1]
+                    continue
+                break
+            if root is None:
+                continue
+            par, _c, _w = _trace_identity(fd, b, {'k': 'copy', 'pl': {'l': root}})
+            if par != kc:
+                continue
+            addend = closure_addend(zf, czf)
+            which = cb.path.split('::')[-1]
+        # what L is in this function
+        def is_L(sym):
+            if is_len:
+                if not sym.startswith('len:'):
+                    return False
+                nm = sym[4:]
+                if nm == lparam:
+                    return True
+                if nm.startswith('_') and nm[1:].isdigit():
+                    return _trace_identity(fd, b, {'k': 'copy', 'pl': {'l': int(nm[1:])}})[0] == kl
+                return False
+            if sym.startswith('v') and sym[1:].isdigit():
+                return _trace_identity(fd, b, {'k': 'copy', 'pl': {'l': int(sym[1:])}})[0] == kl
+            return sym == 'p%d' % kl
+
+        def is_L_plus_1(lin):
+            return lin is not None and lin[1] == 1 and len(lin[0]) == 1 and list(lin[0].values()) == [1] and is_L(list(lin[0].keys())[0])
+        yield Ob('RF-B', '%s#index-shift' % b.path, is_L_plus_1(addend), 'committed index j is translated to j + L + 1', b.span,
+                 fact={'closure': which, 'adds': addend}, expected='L + 1')
+        yield Ob('RF-B', '%s#generator-count' % b.path, is_L_plus_1(gcount), 'the signer generator count handed to prepare_parameters is L + 1 (the same offset as the index shift)',
+                 b.span, fact={'count': gcount}, expected='L + 1')
 
 
 # ------------------------------------------------------------------ serde writer / reader agreement (derived impls, after macro expansion)
